@@ -173,6 +173,25 @@ class FlowRobust:
         out = []
         for p in ("ipfix", "nf9"):
             out += self.type_sweep(p, gens[p], rng)
+        # inside ONE message: data for X, then X (re)defined by an adversarial template (zero fields, zero-length fields, huge
+        # lengths ...), then data for X again - whatever was learnt about X earlier in the message must not survive
+        for p in ("ipfix", "nf9"):
+            g = gens[p]; cmd = "ipfixh" if p == "ipfix" else "nf9h"
+            for _ in range(40 if tier == "quick" else 2000):
+                addr = rand_addr(rng); tid = rng.choice([256, 300, 65535])
+                t1, o1 = g.rand_tpl(tid=tid, allow_var=False)
+                sets = []
+                if rng.random() < 0.7:
+                    sets.append(g.enc_set(g.tpl_set_id(o1), g.enc_tpl(t1, o1)))
+                for _ in range(rng.choice([1, 2, 3])):
+                    sets.append(g.enc_set(tid, g.rand_record(t1)[0] if g.min_rec_len(t1) > 0 else bytes(12)))
+                    t2, o2 = adversarial_tpl(g, rng, tid)
+                    sets.append(g.enc_set(g.tpl_set_id(o2), g.enc_tpl(t2, o2)))
+                    sets.append(g.enc_set(tid, bytes(rng.randrange(256) for _ in range(rng.choice([5, 8, 12, 40])))))
+                    t1 = t2 if g.min_rec_len(t2) > 0 else t1
+                m = g.enc_msg(sets)
+                if len(m) < 60000:
+                    out.append("%s %s %s" % (cmd, hx(addr), hx(m)))
         # every truncation offset of a message announcing a plain and an options template (variable-length scope field), and of its data
         for p in ("ipfix", "nf9"):
             g = gens[p]; cmd = "ipfixh" if p == "ipfix" else "nf9h"; addr = rand_addr(rng)
